@@ -26,6 +26,18 @@ theorem chanRes_single (id' : Id) (r : Res) (id : Id) :
     chanRes [(id', r)] id = if id' = id then [r] else [] := by
   rw [chanRes_cons]; simp
 
+/-- the wakers `set_result` woke (consuming `wake()`) for operation `id`, in order -/
+def finalWakers (ks : Keys) (id : Id) : List WakerId :=
+  ks.wakeLog.filterMap fun r => if r.op = id ∧ r.final = true then some r.waker else none
+
+theorem finalWakers_of_log (ks ks' : Keys) (h : ks'.wakeLog = ks.wakeLog) (id : Id) :
+    finalWakers ks' id = finalWakers ks id := by unfold finalWakers; rw [h]
+
+theorem finalWakers_append (ks ks' : Keys) (r : WakeRec) (h : ks'.wakeLog = ks.wakeLog ++ [r]) (id : Id) :
+    finalWakers ks' id = finalWakers ks id ++ (if r.op = id ∧ r.final = true then [r.waker] else []) := by
+  unfold finalWakers; rw [h, List.filterMap_append]
+  by_cases hc : r.op = id ∧ r.final = true <;> simp [hc]
+
 /-- the relation between the slot of `id` and the ghost histories -/
 def SlotRel (ks : Keys) (queued : Id → Prop) (pool : List Id) (id : Id) : Prop :=
   match ks.slot id with
@@ -51,6 +63,11 @@ structure KInv (ks : Keys) (chan : List (Id × Res)) (queued : Id → Prop) (poo
   /-- a completed operation's waker was woken exactly once if one was registered, never otherwise -/
   wokenEq : ∀ id, ks.fin id ≠ [] → ks.woken id = (if ks.hadWaker id then 1 else 0)
   freshNoWaker : ∀ id, ks.slot id = .free → ks.src id = [] → ks.hadWaker id = false
+  /-- the waker held by a pending slot is the one of the latest `update_waker` -/
+  lastReg : ∀ id w, ks.slot id = .pending w → w = ks.lastWaker id
+  /-- `set_result` woke exactly the latest registered waker, once — and nobody before completion -/
+  wakersEq : ∀ id, finalWakers ks id = if (ks.fin id).isEmpty then [] else (ks.lastWaker id).toList
+  freshNoLast : ∀ id, ks.slot id = .free → ks.src id = [] → ks.lastWaker id = none
 
 theorem KInv.init : KInv {} [] (fun _ => False) [] where
   srcLen := by intro id; simp
@@ -65,6 +82,9 @@ theorem KInv.init : KInv {} [] (fun _ => False) [] where
   wakerReg := by intro id w h; simp at h
   wokenEq := by intro id h; simp at h
   freshNoWaker := by intro id _ _; rfl
+  lastReg := by intro id w h; simp at h
+  wakersEq := by intro id; simp [finalWakers]
+  freshNoLast := by intro id _ _; rfl
 
 section
 variable {ks : Keys} {chan : List (Id × Res)} {queued : Id → Prop} {pool : List Id}
@@ -188,6 +208,18 @@ theorem notify_hadWaker (ks : Keys) (id : Id) (r : Res) : (ks.notify id r).hadWa
   unfold Keys.notify Keys.storeResult
   cases h : ((ks.slot id).store r).2 <;> simp [Keys.wake]
 
+theorem notify_lastWaker (ks : Keys) (id : Id) (r : Res) : (ks.notify id r).lastWaker = ks.lastWaker := by
+  unfold Keys.notify Keys.storeResult
+  cases h : ((ks.slot id).store r).2 <;> simp [Keys.wake]
+
+theorem setWaker_lastWaker (ks : Keys) (id : Id) (w : WakerId) (x : Id) :
+    (ks.setWaker id w).lastWaker x =
+      (match ks.slot id with
+       | .pending _ => if x = id then some w else ks.lastWaker x
+       | _ => ks.lastWaker x) := by
+  unfold Keys.setWaker
+  cases ks.slot id <;> simp [upd]
+
 theorem setWaker_hadWaker (ks : Keys) (id : Id) (w : WakerId) (x : Id) :
     (ks.setWaker id w).hadWaker x =
       (match ks.slot id with
@@ -244,6 +276,9 @@ theorem KInv.requeue {queued' : Id → Prop} (h : KInv ks chan queued pool)
   wakerReg := h.wakerReg
   wokenEq := h.wokenEq
   freshNoWaker := h.freshNoWaker
+  lastReg := h.lastReg
+  wakersEq := h.wakersEq
+  freshNoLast := h.freshNoLast
 
 theorem KInv.alloc (h : KInv ks chan queued pool) {id : Id} (hfree : ks.slot id = .free) (hsrc : ks.src id = []) :
     KInv (ks.alloc id) chan queued pool where
@@ -283,6 +318,22 @@ theorem KInv.alloc (h : KInv ks chan queued pool) {id : Id} (hfree : ks.slot id 
     · subst hxi; simp at hx
     · simp only [alloc_slot, hxi, if_false] at hx
       exact h.freshNoWaker x hx (by simpa using hs)
+  lastReg := by
+    intro x w hx
+    by_cases hxi : x = id
+    · subst hxi
+      simp only [alloc_slot, if_true, Slot.pending.injEq] at hx
+      subst hx
+      exact (h.freshNoLast x hfree hsrc).symm
+    · simp only [alloc_slot, hxi, if_false] at hx
+      exact h.lastReg x w hx
+  wakersEq := h.wakersEq
+  freshNoLast := by
+    intro x hx hs
+    by_cases hxi : x = id
+    · subst hxi; simp at hx
+    · simp only [alloc_slot, hxi, if_false] at hx
+      exact h.freshNoLast x hx (by simpa using hs)
 
 theorem KInv.poolAdd (h : KInv ks chan queued pool) {id : Id} (hsrc : ks.src id = [])
     (hnq : ¬ queued id) (hnp : id ∉ pool) (hpend : ∃ w, ks.slot id = .pending w) :
@@ -325,6 +376,9 @@ theorem KInv.poolAdd (h : KInv ks chan queued pool) {id : Id} (hsrc : ks.src id 
   wakerReg := h.wakerReg
   wokenEq := h.wokenEq
   freshNoWaker := h.freshNoWaker
+  lastReg := h.lastReg
+  wakersEq := h.wakersEq
+  freshNoLast := h.freshNoLast
 
 /-- a result for `id` is produced and put into the channel (thread-pool job done, ECANCELED entry) -/
 theorem KInv.produceChan (h : KInv ks chan queued pool) {id : Id} (r : Res) (hsrc : ks.src id = [])
@@ -386,6 +440,13 @@ theorem KInv.produceChan (h : KInv ks chan queued pool) {id : Id} (r : Res) (hsr
     by_cases hxi : x = id
     · subst hxi; simp at hs
     · exact h.freshNoWaker x (by simpa using hx) (by simpa [hxi] using hs)
+  lastReg := h.lastReg
+  wakersEq := h.wakersEq
+  freshNoLast := by
+    intro x hx hs
+    by_cases hxi : x = id
+    · subst hxi; simp at hs
+    · exact h.freshNoLast x (by simpa using hx) (by simpa [hxi] using hs)
 
 end
 
@@ -414,7 +475,8 @@ theorem KInv.notifyStep {ks : Keys} {chan chan' : List (Id × Res)} {queued queu
   have ehw := notify_hadWaker ks id r
   have hwk0 : ks.woken id = 0 := by
     have := h.wokenLe id; rw [hfin] at this; simpa using this
-  refine ⟨?_, ?_, ?_, h.poolNodup, ?_, ?_, ?_, ?_, ?_, ?_, ?_, ?_⟩
+  have elw := notify_lastWaker ks id r
+  refine ⟨?_, ?_, ?_, h.poolNodup, ?_, ?_, ?_, ?_, ?_, ?_, ?_, ?_, ?_, ?_, ?_⟩
   · intro x; rw [e3]; exact h.srcLen x
   · intro x hx; rw [e3]; exact h.qFresh x (hq x hx)
   · intro x hx; rw [e3]; exact h.poolFresh x hx
@@ -506,6 +568,46 @@ theorem KInv.notifyStep {ks : Keys} {chan chan' : List (Id × Res)} {queued queu
     by_cases hxi : x = id
     · subst hxi; simp at hx
     · simp only [upd, hxi, if_false] at hx; exact h.freshNoWaker x hx hs
+  · -- lastReg
+    intro x w' hx
+    rw [elw]
+    rw [e1] at hx
+    by_cases hxi : x = id
+    · subst hxi; simp at hx
+    · simp only [upd, hxi, if_false] at hx; exact h.lastReg x w' hx
+  · -- wakersEq
+    intro x
+    rw [elw, e2]
+    have hreg := h.lastReg id w hw
+    have hold := h.wakersEq x
+    by_cases hxi : x = id
+    · subst hxi
+      rw [hfin] at hold
+      simp only [List.isEmpty_nil, if_true] at hold
+      simp only [upd_same]
+      cases w with
+      | none =>
+        simp only at e7
+        rw [finalWakers_of_log _ _ e7.2, hold, ← hreg]; simp
+      | some wk =>
+        simp only at e7
+        rw [finalWakers_append _ _ _ e7.2, hold, ← hreg]; simp
+    · simp only [upd, hxi, if_false]
+      cases w with
+      | none => simp only at e7; rw [finalWakers_of_log _ _ e7.2]; exact hold
+      | some wk =>
+        simp only at e7
+        rw [finalWakers_append _ _ _ e7.2]
+        have : ¬ (id = x ∧ True) := by intro hc; exact hxi hc.1.symm
+        simpa [this] using hold
+  · -- freshNoLast
+    intro x hx hs
+    rw [elw]
+    rw [e1] at hx
+    rw [e3] at hs
+    by_cases hxi : x = id
+    · subst hxi; simp at hx
+    · simp only [upd, hxi, if_false] at hx; exact h.freshNoLast x hx hs
 
 /-- ghost-only step: the OS produces the result of `id` (no channel involved yet) -/
 theorem KInv.produced_src {ks : Keys} (id : Id) (r : Res) (hsrc : ks.src id = []) :
@@ -521,7 +623,7 @@ theorem KInv.complete {ks : Keys} {chan : List (Id × Res)} {queued queued' : Id
   have hf := h.fin_of_src_nil hsrc
   -- intermediate invariant: result produced, sitting in a one-element virtual channel in front
   have hmid : KInv (ks.produce id r) ((id, r) :: chan) queued' pool := by
-    refine ⟨?_, ?_, ?_, h.poolNodup, ?_, ?_, ?_, ?_, ?_, h.wakerReg, h.wokenEq, ?_⟩
+    refine ⟨?_, ?_, ?_, h.poolNodup, ?_, ?_, ?_, ?_, ?_, h.wakerReg, h.wokenEq, ?_, h.lastReg, h.wakersEq, ?_⟩
     · intro x
       by_cases hx : x = id
       · subst hx; simp [hsrc]
@@ -562,6 +664,10 @@ theorem KInv.complete {ks : Keys} {chan : List (Id × Res)} {queued queued' : Id
       by_cases hxi : x = id
       · subst hxi; simp at hs
       · exact h.freshNoWaker x (by simpa using hx) (by simpa [hxi] using hs)
+    · intro x hx hs
+      by_cases hxi : x = id
+      · subst hxi; simp at hs
+      · exact h.freshNoLast x (by simpa using hx) (by simpa [hxi] using hs)
   refine KInv.notifyStep hmid (by simp [hsrc]) (by simpa using hf.1) ?_ (fun x hx => hx) hnq
   intro x
   rw [chanRes_cons]
@@ -611,7 +717,7 @@ theorem KInv.pop {ks : Keys} {chan : List (Id × Res)} {queued : Id → Prop} {p
       rw [hr.1] at hl
       intro e; rw [e] at hl; simp at hl
     refine ⟨h.srcLen, h.qFresh, h.poolFresh, h.poolNodup, h.link, ?_, h.noUaf, h.wokenLe, h.wakeReady, ?_,
-      h.wokenEq, ?_⟩
+      h.wokenEq, ?_, ?_, h.wakersEq, ?_⟩
     · intro x
       have hrx := h.slotRel x
       unfold SlotRel at hrx ⊢
@@ -627,10 +733,19 @@ theorem KInv.pop {ks : Keys} {chan : List (Id × Res)} {queued : Id → Prop} {p
       by_cases hxi : x = id
       · subst hxi; exact (hsrcne hsx).elim
       · simp only [upd, hxi, if_false] at hx; exact h.freshNoWaker x hx hsx
+    · intro x w hx
+      by_cases hxi : x = id
+      · subst hxi; simp [upd] at hx
+      · simp only [upd, hxi, if_false] at hx; exact h.lastReg x w hx
+    · intro x hx hsx
+      by_cases hxi : x = id
+      · subst hxi; exact (hsrcne hsx).elim
+      · simp only [upd, hxi, if_false] at hx; exact h.freshNoLast x hx hsx
 
 theorem KInv.setWaker {ks : Keys} {chan : List (Id × Res)} {queued : Id → Prop} {pool : List Id}
     (h : KInv ks chan queued pool) (id : Id) (w : WakerId) : KInv (ks.setWaker id w) chan queued pool := by
-  refine ⟨h.srcLen, h.qFresh, h.poolFresh, h.poolNodup, h.link, ?_, h.noUaf, h.wokenLe, h.wakeReady, ?_, ?_, ?_⟩
+  refine ⟨h.srcLen, h.qFresh, h.poolFresh, h.poolNodup, h.link, ?_, h.noUaf, h.wokenLe, h.wakeReady, ?_, ?_, ?_,
+    ?_, ?_, ?_⟩
   · intro x
     have hrx := h.slotRel x
     unfold SlotRel at hrx ⊢
@@ -690,6 +805,55 @@ theorem KInv.setWaker {ks : Keys} {chan : List (Id × Res)} {queued : Id → Pro
       | pending w0 => rw [hs] at hx; simp [Slot.setWaker] at hx
     · simp only [hxi, if_false] at hx
       have := h.freshNoWaker x hx hsx
+      cases ks.slot id <;> simp [hxi, this]
+  · intro x w' hx
+    rw [setWaker_slot] at hx
+    rw [setWaker_lastWaker]
+    by_cases hxi : x = id
+    · subst hxi
+      simp only [if_true] at hx
+      cases hs : ks.slot x with
+      | free => rw [hs] at hx; simp [Slot.setWaker] at hx
+      | ready r => rw [hs] at hx; simp [Slot.setWaker] at hx
+      | pending w0 =>
+        rw [hs] at hx
+        simp only [Slot.setWaker, Slot.pending.injEq] at hx
+        subst hx
+        simp
+    · simp only [hxi, if_false] at hx
+      have := h.lastReg x w' hx
+      cases ks.slot id <;> simp [hxi, this]
+  · intro x
+    have hold := h.wakersEq x
+    rw [finalWakers_of_log ks (ks.setWaker id w) rfl, setWaker_lastWaker]
+    simp only [setWaker_fin]
+    cases hs : ks.slot id with
+    | free => exact hold
+    | ready r => exact hold
+    | pending w0 =>
+      simp only
+      by_cases hxi : x = id
+      · subst hxi
+        have hr := h.slotRel x
+        unfold SlotRel at hr
+        rw [hs] at hr
+        have hfe : ks.fin x = [] := hr.1
+        simp only [hfe, List.isEmpty_nil, if_true] at hold ⊢
+        exact hold
+      · simpa [hxi] using hold
+  · intro x hx hsx
+    rw [setWaker_slot] at hx
+    rw [setWaker_lastWaker]
+    simp only [setWaker_src] at hsx
+    by_cases hxi : x = id
+    · subst hxi
+      simp only [if_true] at hx
+      cases hs : ks.slot x with
+      | free => simpa using h.freshNoLast x hs hsx
+      | ready r => rw [hs] at hx; simp [Slot.setWaker] at hx
+      | pending w0 => rw [hs] at hx; simp [Slot.setWaker] at hx
+    · simp only [hxi, if_false] at hx
+      have := h.freshNoLast x hx hsx
       cases ks.slot id <;> simp [hxi, this]
 
 /-- `PushEntry::Ready` at push time: the freshly allocated key gets its result and is consumed at once -/
@@ -1050,7 +1214,7 @@ theorem append_comm_of_length_le_one {α : Type} (a b : List α) (h : (a ++ b).l
 theorem KInv.chanSwap {ks : Keys} {a b c : List (Id × Res)} {queued : Id → Prop} {pool : List Id}
     (h : KInv ks (a ++ b ++ c) queued pool) : KInv ks (a ++ c ++ b) queued pool := by
   refine ⟨h.srcLen, h.qFresh, h.poolFresh, h.poolNodup, ?_, h.slotRel, h.noUaf, h.wokenLe, h.wakeReady,
-    h.wakerReg, h.wokenEq, h.freshNoWaker⟩
+    h.wakerReg, h.wokenEq, h.freshNoWaker, h.lastReg, h.wakersEq, h.freshNoLast⟩
   intro id
   have hl := h.link id
   have hlen := h.srcLen id
@@ -1306,25 +1470,31 @@ theorem pushMulti_fields (ks : Keys) (id : Id) (r : Res) :
     (ks.pushMulti id r).dlv = ks.dlv ∧ (ks.pushMulti id r).woken = ks.woken ∧
     (ks.pushMulti id r).uaf = (ks.uaf || (ks.slot id == .free)) ∧
     (∀ w ∈ (ks.pushMulti id r).wakeLog, w.final = true → w ∈ ks.wakeLog) ∧
-    (ks.pushMulti id r).hadWaker = ks.hadWaker := by
+    (ks.pushMulti id r).hadWaker = ks.hadWaker ∧ (ks.pushMulti id r).lastWaker = ks.lastWaker ∧
+    (∀ x, finalWakers (ks.pushMulti id r) x = finalWakers ks x) := by
   unfold Keys.pushMulti
   split
-  · refine ⟨rfl, rfl, rfl, rfl, rfl, rfl, ?_, rfl⟩
+  · refine ⟨rfl, rfl, rfl, rfl, rfl, rfl, ?_, rfl, rfl, ?_⟩
+    rotate_left
+    · intro x
+      unfold finalWakers
+      simp [Keys.wake, List.filterMap_append]
     intro w hw hf
     simp only [Keys.wake, List.mem_append, List.mem_singleton] at hw
     rcases hw with hw | rfl
     · exact hw
     · simp at hf
-  · exact ⟨rfl, rfl, rfl, rfl, rfl, rfl, fun w hw _ => hw, rfl⟩
+  · exact ⟨rfl, rfl, rfl, rfl, rfl, rfl, fun w hw _ => hw, rfl, rfl, fun _ => rfl⟩
 
 theorem KInv.pushMulti {ks : Keys} {chan : List (Id × Res)} {queued : Id → Prop} {pool : List Id}
     (h : KInv ks chan queued pool) (id : Id) (r : Res) (hlive : ks.slot id ≠ .free) :
     KInv (ks.pushMulti id r) chan queued pool := by
-  obtain ⟨e1, e2, e3, e4, e5, e6, e7, e8⟩ := pushMulti_fields ks id r
+  obtain ⟨e1, e2, e3, e4, e5, e6, e7, e8, e9, e10⟩ := pushMulti_fields ks id r
   refine ⟨by rw [e2]; exact h.srcLen, by rw [e2]; exact h.qFresh, by rw [e2]; exact h.poolFresh, h.poolNodup,
     by rw [e2, e3]; exact h.link, ?_, ?_, by rw [e3, e5]; exact h.wokenLe, ?_,
     by rw [e1, e8]; exact h.wakerReg, by rw [e3, e5, e8]; exact h.wokenEq,
-    by rw [e1, e2, e8]; exact h.freshNoWaker⟩
+    by rw [e1, e2, e8]; exact h.freshNoWaker, by rw [e1, e9]; exact h.lastReg,
+    by intro x; rw [e10, e3, e9]; exact h.wakersEq x, by rw [e1, e2, e9]; exact h.freshNoLast⟩
   · intro x
     have := h.slotRel x
     unfold SlotRel at this ⊢
